@@ -79,6 +79,7 @@ struct Thr {
   int nspin;
   uint64_t spin_wver;
   uint64_t own_writes;
+  uint64_t last_run; // step at which this thread last received the token
   int fresh;
   // history
   uint64_t hist;
@@ -140,6 +141,7 @@ static struct G {
   int pid;
   uint64_t obs;
   int ended_unreaped;
+  uint64_t sched_salt;
 } g;
 
 static __thread Thr* self_thr;
@@ -294,6 +296,7 @@ static void wait_token(Thr* me) {
   while (__atomic_load_n(&me->go, __ATOMIC_ACQUIRE) == 0) raw_futex(&me->go, FUTEX_WAIT, 0, 0);
   __atomic_store_n(&me->go, 0, __ATOMIC_RELAXED);
   g.running = me->id;
+  me->last_run = g.steps;
   reap_ended();
 }
 static void give_token(Thr* to) {
@@ -338,7 +341,10 @@ static int choose_alt(int kind, int nalts, uint64_t costmask) {
   // scheduling choice of the same operation with no state change in between; the two choice points must
   // not share a hash or the explorer's visited-state pruning would cut the second one (and everything
   // after it) off.
-  if (kind != MC_K_NONE) h = mix3(h, 0xc401ce, (uint64_t)kind);
+  if (kind != MC_K_NONE)
+    h = mix3(h, 0xc401ce, (uint64_t)kind);
+  else
+    h = mix2(h, g.sched_salt); // which continuation is the free default depends on scheduling history
   uint32_t idx = g.nrecs;
   int c = 0;
   const McPrefix* p = &g.cfg.prefix;
@@ -438,11 +444,23 @@ static void reschedule(Thr* me) {
     int me_enabled = (me->state == TS_RUNNABLE && !me->spinner && op_enabled(me));
     if (me_enabled) alts[n++] = Alt{0, me->id};
     long free_cost = g.opts[MC_OPT_FREE_SWITCH_COST];
-    for (int i = 0; i < g.nthr && n < 64; i++) {
-      Thr* t = &g.thr[i];
-      if (t == me || t->spinner || !op_enabled(t)) continue;
-      if (n > 0 && (me_enabled || free_cost)) costmask |= (1ULL << n);
-      alts[n++] = Alt{0, t->id};
+    // Other enabled threads, least recently run first: when the running thread blocks or yields, the
+    // default continuation is the thread that has waited longest, so the default schedule is fair (two
+    // threads that keep each other spinning cannot starve a third one that was preempted).
+    {
+      int first = n;
+      for (int i = 0; i < g.nthr && n < 64; i++) {
+        Thr* t = &g.thr[i];
+        if (t == me || t->spinner || !op_enabled(t)) continue;
+        int k = n++;
+        while (k > first && g.thr[alts[k - 1].tid].last_run > t->last_run) {
+          alts[k] = alts[k - 1];
+          k--;
+        }
+        alts[k] = Alt{0, t->id};
+      }
+      for (int k = (first == 0 ? 1 : first); k < n; k++)
+        if (me_enabled || free_cost) costmask |= (1ULL << k);
     }
     int nenabled = n;
     if (nenabled > 0) {
@@ -468,6 +486,10 @@ static void reschedule(Thr* me) {
             alts[n++] = Alt{3, i};
           }
         }
+      // With free switches costing nothing the set of executions below this point does not depend on
+      // the order of the alternatives, so the order (a function of scheduling history) stays out of the
+      // hash; it matters only when non-default switches at blocking points are charged.
+      g.sched_salt = free_cost ? (uint64_t)(alts[0].type * 131 + alts[0].tid + 1) : 0;
       int c = choose_alt(MC_K_NONE, n, costmask);
       Alt a = alts[c];
       Thr* t = &g.thr[a.tid];
@@ -799,11 +821,14 @@ static void post_impl(Thr* me, int kind, const volatile void* addr, unsigned siz
     return;
   }
   me->nops++;
-  // non-mutating: spin rule. The set of observations is reset only by writes of OTHER threads: a thread
-  // that keeps changing memory itself (e.g. a cursor fetch_add in a retry loop) while re-reading the same
-  // value of a word nobody else has touched is still waiting for somebody else.
-  if (me->spin_wver != g.wver - me->own_writes) {
-    me->spin_wver = g.wver - me->own_writes;
+  // non-mutating: spin rule. By default any write (also the thread's own) resets the set of observations.
+  // With opt.spin_own=1 only writes of OTHER threads do: a thread that keeps changing memory itself (e.g.
+  // a cursor fetch_add in a retry loop) while re-reading the same value of a word nobody else has touched
+  // is then recognised as waiting. That recognises more loops but also makes ordinary worker loops yield
+  // far more often (20x more executions on a pool program), so it is opt-in.
+  uint64_t seen_wver = g.opts[MC_OPT_SPIN_OWN] ? g.wver - me->own_writes : g.wver;
+  if (me->spin_wver != seen_wver) {
+    me->spin_wver = seen_wver;
     me->nspin = 0;
   }
   for (int i = 0; i < me->nspin; i++)
@@ -1015,10 +1040,18 @@ extern "C" void mc_observe(uint64_t h) { g.obs += mix64(h); }
 extern "C" void mc_cover(const char* name) {
   McSlot* s = g.slot;
   if (!s) return;
-  for (uint32_t i = 0; i < s->ncover; i++)
-    if (!strncmp(s->cover[i], name, sizeof s->cover[0] - 1)) return;
+  // own byte loops: strncmp/strncpy are intercepted by TSan even from this uninstrumented TU, which
+  // made the engine race with itself when two modelled threads registered markers
+  const unsigned cap = sizeof s->cover[0] - 1;
+  for (uint32_t i = 0; i < s->ncover; i++) {
+    unsigned k = 0;
+    while (k < cap && s->cover[i][k] == name[k] && name[k]) k++;
+    if (k == cap || (s->cover[i][k] == 0 && name[k] == 0)) return;
+  }
   if (s->ncover < MC_MAX_COVER) {
-    strncpy(s->cover[s->ncover], name, sizeof s->cover[0] - 1);
+    unsigned k = 0;
+    for (; k < cap && name[k]; k++) s->cover[s->ncover][k] = name[k];
+    s->cover[s->ncover][k] = 0;
     s->ncover++;
   }
 }
